@@ -401,3 +401,5 @@ def run(ctx):
     from rules import conventions as conv
     conv.check_find_bin_1d(ctx, "C04.d", m.cls("Histogram1D").methods["find_bin"])
     conv.check_find_bin_nd(ctx, "C04.d", m.cls("HistogramND").methods["find_bin"])
+    # growth re-allocates and transfers the old contents (shared with C10.a)
+    ctx.borrow("C10", ("HistogramBase._reshape_data",), "C04.b", floor=2)
